@@ -15,10 +15,8 @@ gateway's protocol reports for a bus outcome and what the property asks of
   (Tridonic sequence numbers, across wrap-around), and never a report that was
   stored / queued before its own write (hasseb slot, LUBA / SCI queue).
 
-Two excluded points are stated as witnesses next to the theorems they limit:
-hasseb returns `None` for a query on an unknown status code, and the ATX hat
-driver returns a bare frame / the raw text for a non-query when the hat sends a
-`J…` / `X…` line.
+One excluded point is stated as a witness next to the theorem it limits:
+hasseb returns `None` for a query on an unknown status code.
 -/
 namespace DaliVerif.Props.C16
 open DaliVerif DaliVerif.Answer DaliVerif.Routing DaliVerif.Spec.AnswerTable
@@ -48,16 +46,9 @@ theorem typed_by_command (c : CmdInfo) (cls : Nat) (o : Outcome) :
   · intro v s r p h; exact AnswerTable.daliserver_typed h
   · intro lines h; exact AnswerTable.atx_typed h
 
-/-- a line of the ATX hat that is neither `J<hex>` nor `X…` -/
-def PlainLine : ALine → Prop
-  | .j _ _ => False
-  | .x => False
-  | _ => True
-
 /-- **`send` returns `None` exactly when the command expects no answer.**
 hasseb: for the three status codes of the protocol (and always `None` for a
-non-query); ATX hat: `None` only for a non-query, and a non-query gets `None`
-as long as the hat sends no `J…` / `X…` line. -/
+non-query). -/
 theorem none_iff_no_answer_expected (c : CmdInfo) (a : Answer) :
     (∀ msgs n, tridonicAnswer c msgs = .done (.ok a) n → (a = .none ↔ c.resp = none)) ∧
     (∀ st b, hassebAnswer c (.rep st b) = .ok a → st = 1 ∨ st = 2 ∨ st = 3 →
@@ -66,10 +57,8 @@ theorem none_iff_no_answer_expected (c : CmdInfo) (a : Answer) :
     (∀ w, lubaAnswer c w = .ok a → (a = .none ↔ c.resp = none)) ∧
     (∀ w, sciAnswer c w = .ok a → (a = .none ↔ c.resp = none)) ∧
     (∀ v s r p, daliserverUnpack c v s r p = .ok a → (a = .none ↔ c.resp = none)) ∧
-    (∀ lines, atxAnswer c lines = .ok a → (a = .none → c.resp = none)) ∧
-    (∀ lines, atxAnswer c lines = .ok a → c.resp = none → (∀ l ∈ lines, PlainLine l) →
-      a = .none) := by
-  refine ⟨?_, ?_, ?_, ?_, ?_, ?_, ?_, ?_⟩
+    (∀ lines, atxAnswer c lines = .ok a → (a = .none ↔ c.resp = none)) := by
+  refine ⟨?_, ?_, ?_, ?_, ?_, ?_, ?_⟩
   · intro msgs n h
     obtain ⟨r', rfl⟩ := AnswerTable.triLoop_ok h
     exact AnswerTable.triFinish_none_iff c r'
@@ -78,20 +67,14 @@ theorem none_iff_no_answer_expected (c : CmdInfo) (a : Answer) :
   · intro w h; exact AnswerTable.luba_none_iff h
   · intro w h; exact AnswerTable.luba_none_iff h
   · intro v s r p h; exact AnswerTable.daliserver_none_iff h
-  · intro lines h ha; exact AnswerTable.atx_none_imp h ha
-  · intro lines h hc hp
-    refine AnswerTable.atx_nonquery_plain h hc ?_
-    intro l hl
-    have := hp l hl
-    cases l <;> simp_all [PlainLine, AnswerTable.Plain]
+  · intro lines h; exact AnswerTable.atx_none_iff h
 
 /-- excluded point (hasseb): an unknown status code returns `None` for a query -/
 example : hassebAnswer ⟨some 7, false⟩ (.rep 4 0) = .ok .none := by decide
 
-/-- excluded point (ATX hat): a `J…` line answers a non-query with a bare
-`BackwardFrame`, an `X…` line with the raw text -/
-example : atxAnswer ⟨none, false⟩ [.j 0 (some 5)] = .ok (.bare 5) ∧
-    atxAnswer ⟨none, false⟩ [.x] = .ok .text := by decide
+/-- ATX hat, non-query: a `J…` or `X…` line from the hat does not leak into the result -/
+example : atxAnswer ⟨none, false⟩ [.j 0 (some 5)] = .ok .none ∧
+    atxAnswer ⟨none, false⟩ [.x] = .ok .none := by decide
 
 /-- **Tridonic status table**: for every command, frame width and bus outcome
 the loop run on the protocol's reports returns normally, the result is the one
@@ -124,17 +107,10 @@ theorem sci_table (c : CmdInfo) (bus : Bus) (hb : ∀ b, bus = .value b → b < 
     ∃ a, sciAnswer c (serialWait bus) = .ok a ∧ conforms .sci c bus a = true :=
   AnswerTable.sci_table c bus hb
 
-/-- **ATX hat status table.**  The hypothesis `hq` (no backward frame on the bus
-after a command that expects no answer) is needed: see the witness below. -/
-theorem atx_table (c : CmdInfo) (bus : Bus) (hb : ∀ b, bus = .value b → b < 256)
-    (hq : c.resp = none → ∀ b, bus ≠ .value b) :
+/-- **ATX hat status table.** -/
+theorem atx_table (c : CmdInfo) (bus : Bus) (hb : ∀ b, bus = .value b → b < 256) :
     ∃ a, atxAnswer c (atxLines c.twice bus) = .ok a ∧ conforms .atx c bus a = true :=
-  AnswerTable.atx_table c bus hb hq
-
-/-- without `hq` the ATX table fails: a non-query followed by a backward frame
-returns a bare `BackwardFrame`, not `None` -/
-example : atxAnswer ⟨none, false⟩ (atxLines false (.value 5)) = .ok (.bare 5) ∧
-    conforms .atx ⟨none, false⟩ (.value 5) (.bare 5) = false := by decide
+  AnswerTable.atx_table c bus hb
 
 /-- a report type the Tridonic loop does not react to -/
 def Ignorable (t f3 : Nat) : Prop :=
